@@ -7,7 +7,7 @@ from values import QForall, ObjLV, Ptr
 import C18, C20
 
 PROP = 'C06'
-CONFIGS = [{'SIMUCELL3D_VERIF_CONTACT_MODEL_INDEX': 1}, {'SIMUCELL3D_VERIF_CONTACT_MODEL_INDEX': 0}]
+CONFIGS = [{'SIMUCELL3D_VERIF_CONTACT_MODEL_INDEX': 1}, {'SIMUCELL3D_VERIF_CONTACT_MODEL_INDEX': 0}, {'SIMUCELL3D_VERIF_CONTACT_MODEL_INDEX': 2}]
 I = z3.IntSort(); R = z3.RealSort()
 CM = 'contact_model_abstract.'
 AX = ('x', 'y', 'z')
@@ -242,11 +242,11 @@ def post_store_body(C):
 
 
 # ---- D4: candidate loop of the node-node model -------------------------------------------------------------------------------------------
-def resolve_contract():
+def resolve_contract(cls='contact_node_node_via_coupling'):
     def on_call(C, st):
         from values import GuardedLog
         st.ghost['resolved'] = st.ghost.get('resolved', GuardedLog()).add((C.val('c1').ref, C.val('c2').ref, C.arg('n1').ref, C.val('f').ref))
-    return Contract('contact_node_node_via_coupling::resolve_contact', PROP, frame=lambda C: [('*', None)], on_call=on_call, name='resolve_contact (any effect; call recorded)')
+    return Contract(cls + '::resolve_contact', PROP, frame=lambda C: [('*', None)], on_call=on_call, name='resolve_contact (any effect; call recorded)')
 
 
 def aabb_contract():
@@ -262,7 +262,7 @@ def pre_candidates(C):
             ('face-has-its-box', z3.And(gid >= 0, gid * 6 + 5 < o.len(boxes)))]
 
 
-def post_candidates(C):
+def post_candidates(C, cls='contact_node_node_via_coupling'):
     o = C.old
     f = val(C, 'f').ref
     c1 = val(C, 'c1').ref; c2 = o.f(f, 'face.owner_cell_')
@@ -277,7 +277,7 @@ def post_candidates(C):
     other = o.f(c1, 'cell.cell_id_') != o.f(c2, 'cell.cell_id_')
     # the model's own admissibility rule uses the class constant max_dot_product_repulsion_ (whatever its value is)
     vd = [d for d in C.e.ast.by_id.values() if d.get('kind') == 'VarDecl' and d.get('name') == 'max_dot_product_repulsion_'
-          and C.e.ast.record_display_name(C.e.ast.parent.get(d['id'], {})) == 'contact_node_node_via_coupling']
+          and C.e.ast.record_display_name(C.e.ast.parent.get(d['id'], {})) == cls]
     maxdot = C.e.global_cache.get('glob!' + vd[0]['id']) if vd else None
     if maxdot is None: maxdot = z3.Real('ghost.max_dot_product_repulsion')
     normal_rule = o.v3(n1, 'node.normal_').dot(o.v3(f, 'face.normal_')) < maxdot
@@ -321,6 +321,25 @@ def post_spring_ctor(C):
                                        ('own-cutoff-does-not-exceed-the-box-padding', n.f(C.this, NF + 'interaction_cutoff_') <= n.f(C.this, CM + 'aabb_padding_'))]
 
 
+def post_cell_threshold(C):
+    """cell-loop body up to the node loop: the threshold used by the node loop is the one of the cell's own type, and the nodes visited are the cell's"""
+    if C.outcome != 'loop-entry': return [('every-listed-cell-has-its-nodes-visited', z3.BoolVal(False))]
+    o = C.old
+    lst = lv(C, 'cell_lst').ref
+    c1 = val(C, 'c1', C.post_state).ref
+    cont = C.post_state.ghost.get('stopped_container')
+    return [('the-cell-visited-is-the-listed-one', c1 == o.at(lst, val(C, 'cell_id'), 'int')),
+            ('threshold-is-the-one-of-the-cell-type', val(C, 'surface_coupling_max_curvature', C.post_state) == o.f(o.f(c1, 'cell.cell_type_'), 'cell_type_parameters.surface_coupling_max_curvature_')),
+            ('the-node-loop-runs-over-the-nodes-of-that-cell', z3.BoolVal(cont is not None) if cont is None else cont.ref == o.sub(c1, 'cell.node_lst_'))]
+
+
+def pre_cell_threshold(C):
+    o = C.old
+    lst = lv(C, 'cell_lst').ref
+    i = val(C, 'cell_id')
+    return [('index-is-a-size_t', i >= 0), ('cell-non-null', z3.And(o.at(lst, i, 'int') > 0, o.f(o.at(lst, i, 'int'), 'cell.cell_type_') > 0))]
+
+
 def pre_node_voxel(C):
     o = C.old
     g = grid(o, C.this)
@@ -338,9 +357,16 @@ def pre_node_voxel(C):
     return out
 
 
-def post_node_voxel(C):
+def post_node_voxel(C, curvature_rule=True):
     o = C.old
-    if C.outcome != 'loop-entry': return []
+    if C.outcome != 'loop-entry':
+        # the iteration ended without a candidate search: only a dead slot (and, in the coupling models, a node whose curvature is at or above
+        # the coupling threshold of its cell type - the models' own rule) may be passed over
+        n1 = lv(C, 'n')
+        skip_ok = z3.Not(o.f(n1.ref, 'node.is_used_'))
+        if curvature_rule:
+            skip_ok = z3.Or(skip_ok, o.f(n1.ref, 'node.curvature_') >= val(C, 'surface_coupling_max_curvature'))      # the threshold variable: see <threshold of the cell>
+        return [('a-node-is-passed-over-only-if-it-is-dead-or-too-curved-for-the-model' if curvature_rule else 'a-node-is-passed-over-only-if-it-is-dead', skip_ok)]
     g = grid(o, C.this)
     lst = o.sub(g, 'uspg_4d<face *>.voxel_lst_')
     nb = [o.f(g, G + 'nb_voxels_%s_' % a) for a in AX]
@@ -377,12 +403,22 @@ def build(reg, cfg):
         reg.add(Contract('contact_node_node_via_coupling::resolve_all_contacts', PROP, pre=pre_node_voxel, post=post_node_voxel, slice_loop=1, prefix_loop=2,
                          safety={'bounds', 'wrap', 'narrowing'}, use=[flat_contract()],
                          name='contact_node_node_via_coupling::resolve_all_contacts::<voxel of the node> (D4)'))
+    if cfg['SIMUCELL3D_VERIF_CONTACT_MODEL_INDEX'] in (1, 2):
+        cls_ = {1: 'contact_node_node_via_coupling', 2: 'contact_face_face_via_coupling'}[cfg['SIMUCELL3D_VERIF_CONTACT_MODEL_INDEX']]
+        reg.add(Contract(cls_ + '::resolve_all_contacts', PROP, pre=pre_cell_threshold, post=post_cell_threshold, slice_loop=0, prefix_loop=1, safety={'bounds'},
+                         name=cls_ + '::resolve_all_contacts::<threshold of the cell> (D4)'))
+    if cfg['SIMUCELL3D_VERIF_CONTACT_MODEL_INDEX'] == 2:
+        FF = 'contact_face_face_via_coupling'
+        reg.add(Contract(FF + '::resolve_all_contacts', PROP, pre=pre_candidates, post=lambda C: post_candidates(C, FF), slice_loop=2,
+                         use=[resolve_contract(FF), aabb_contract()], name=FF + '::resolve_all_contacts::<candidate loop body> (D4, model 2)'))
+        reg.add(Contract(FF + '::resolve_all_contacts', PROP, pre=pre_node_voxel, post=post_node_voxel, slice_loop=1, prefix_loop=2,
+                         safety={'bounds', 'wrap', 'narrowing'}, use=[flat_contract()], name=FF + '::resolve_all_contacts::<voxel of the node> (D4, model 2)'))
     if cfg['SIMUCELL3D_VERIF_CONTACT_MODEL_INDEX'] == 0:
         reg.add(Contract('contact_node_face_via_spring::contact_node_face_via_spring', PROP, signature='global_simulation_parameters', pre=C18.pre_contact_ctor,
                          post=post_spring_ctor, name='contact_node_face_via_spring::contact_node_face_via_spring (D0, model 0)'))
         reg.add(Contract('contact_node_face_via_spring::resolve_contacts', PROP, pre=pre_candidates, post=post_candidates_nf, slice_loop=2,
                          use=[apply_contract(), aabb_contract()], name='contact_node_face_via_spring::resolve_contacts::<candidate loop body> (D4, model 0)'))
-        reg.add(Contract('contact_node_face_via_spring::resolve_contacts', PROP, pre=pre_node_voxel, post=post_node_voxel, slice_loop=1, prefix_loop=2,
+        reg.add(Contract('contact_node_face_via_spring::resolve_contacts', PROP, pre=pre_node_voxel, post=lambda C: post_node_voxel(C, False), slice_loop=1, prefix_loop=2,
                          safety={'bounds', 'wrap', 'narrowing'}, use=[flat_contract()],
                          name='contact_node_face_via_spring::resolve_contacts::<voxel of the node> (D4, model 0)'))
     lemmas(reg)
@@ -400,13 +436,13 @@ EXPLANATION = ("Chain of contracts for the shipped contact model (node-node coup
                "candidate face of another cell whose box contains the node and which passes the model's normal rule reaches resolve_contact, "
                "faces of the same cell never do. Composition: node within the cut-off of a triangle => (D2 lemma, pad >= cut-off by D0) inside "
                "the face box => (monotonicity) its voxel is in the face's range => (D3) the face is in that voxel's list => (D4) presented to "
-               "the contact rule, whose own distance test (C05/C07) does the rest. The whole chain is checked in two compile-time configurations: "
-               "contact model 1 (node-node coupling) and contact model 0 (node-face springs: D0 also for the derived constructor - its own cut-off "
+               "the contact rule, whose own distance test (C05/C07) does the rest. The whole chain is checked in the three compile-time configurations: "
+               "contact model 1 (node-node coupling), contact model 2 (face-face coupling, same candidate rule) and contact model 0 (node-face springs: D0 also for the derived constructor - its own cut-off "
                "is the largest cut-off and does not exceed the box padding - and D4 for contact_node_face_via_spring::resolve_contacts).")
 ASSUMPTIONS = ["exact reals", "grid contracts (update_dimensions, get_voxel_index, place_object) are used as proved in C20",
                "live nodes lie inside the grid box: every live node is a vertex of a live face (C01) whose padded box is inside the global box (D1)",
                "for-loop semantics compose the per-iteration contracts (boxes stored at 6*i for every i; every voxel of the range visited)",
-               "contact model 2 shares D0-D3 (same base class); its candidate loop is not under contract here (models 1 and 0 are)",
+               
                "double -> float conversions round to nearest with a relative error of at most 2^-24 (normal range; overflow and subnormals not modelled); every other floating-point operation is exact-real"]
 UNVERIFIED = ["contact_node_face_via_spring::resolve_contacts and contact_face_face_via_coupling::resolve_all_contacts (candidate loops of the other two compile-time models)",
               "construction of face_lst_ / global_face_id_ in run() (face i of face_lst_ has global id i)"]
